@@ -32,7 +32,22 @@ def _prog(fn, quick, thorough_n, bound, **kw):
     return run
 
 
+def _misc(fn, bound, quick_kw=None, thorough_kw=None):
+    def run(seed, thorough=False):
+        from harness import misc as M
+
+        kw = dict((thorough_kw if thorough else quick_kw) or {})
+        v, cases = getattr(M, fn)(seed, **kw)
+        return dict(cases=cases, violations=v, known={}, bound=bound.replace("{seed}", str(seed)))
+
+    return run
+
+
 BOUNDED = {
+    "threads": _misc("check_threads", "real threads: 6 rounds of 6 concurrent calls of one DAG; a call and an @xn call while another thread's build is paused inside its describing function; two concurrent builds with the lock hand-over forced (delegating lock)", dict(n_cases=6), dict(n_cases=30)),
+    "async": _misc("check_async", "one event loop: gather of 2 and 5 first awaits of an AsyncDAG with an unexecuted setup node; an async-thread node released by a sibling coroutine (also after a node failure)"),
+    "priority_table": _misc("check_priority_table", "random DAGs <= 5 nodes (non-tree shapes) with integer priorities, seed {seed}: table of the DAG and of 4 executors vs own + sum over distinct descendants; thorough: + 6 sub-processes with different PYTHONHASHSEED", dict(n_cases=150), dict(n_cases=1500, hash_seeds=(0, 1, 2, 3, 4, 5))),
+    "profile": _misc("check_profile", "finite domain, complete: Profile(active in {True, False}).__exit__ with and without an exception"),
     "programs": _prog("check_equivalence", 250, 4000, "{n} random describing functions (<= 5 statements, nesting depth <= 2, all argument / flag / return forms of the supported fragment), seed {seed}: DAG and AsyncDAG value and per-call-site execution counts against ONE interpreter run with the plain callables; re-run after config_from_dict and a second call"),
     "programs_flat": _prog("check_equivalence", 150, 2000, "{n} random flat describing functions (no nesting), seed {seed}", nested=False),
     "reference_matrix": _prog("check_reference_matrix", 0, 0, "exhaustive matrix: reference kind (positional, keyword, activation) x source (parameter, result, indexed / unpacked / nested-key result) x nesting depth 0..2 x 3 inputs (216 programs)"),
